@@ -541,11 +541,12 @@ func (ex *Exec) doRange(fr *Frame, st *State, x *ssa.Range) {
 	mh := mapOf(x.X.Type())
 	it := fr.ranges[x]
 	if it == nil {
-		it = &rangeIter{mt: x.X.Type(), seen: ex.newCell("$seen", seenType{mh.ks}, x.Pos())}
+		it = &rangeIter{mt: x.X.Type(), seen: ex.newCell("$seen", seenType{mh.ks}, x.Pos()), count: ex.newCell("$n", types.Typ[types.Int], x.Pos())}
 		fr.ranges[x] = it
 	}
 	it.m = v.S()
 	st.cells[it.seen] = Val{T: it.seen.T, L: []*Term{ConstArr(ArrSort(mh.ks, SBool), False)}}
+	st.cells[it.count] = Val{T: it.count.T, L: []*Term{Int(0)}}
 	fr.regs[x] = Val{T: x.Type(), L: []*Term{v.S()}}
 }
 
@@ -588,6 +589,18 @@ func (ex *Exec) doNext(fr *Frame, st *State, x *ssa.Next) Val {
 		ex.wlog.cells[it.seen] = true
 	}
 	st.cells[it.seen] = Val{T: it.seen.T, L: []*Term{Ite(ok, Store(seen, k, True), seen)}}
+	// $n counts the keys yielded so far; they are distinct members of the map, so $n <= len(m)
+	// (facts valid when the body does not insert into / delete from the ranged map)
+	cnt := Int(0)
+	if cv, okc := st.cells[it.count]; okc {
+		cnt = cv.S()
+	}
+	ncnt := Ite(ok, Add(cnt, Int(1)), cnt)
+	st.cells[it.count] = Val{T: it.count.T, L: []*Term{ncnt}}
+	if ex.wlog != nil {
+		ex.wlog.cells[it.count] = true
+	}
+	ex.assume(st, And(Ge(cnt, Int(0)), Le(ncnt, ex.mapLen(st, it.mt, m))))
 	out := Val{T: x.Type(), L: []*Term{ok}}
 	tt := x.Type().(*types.Tuple)
 	// tuple (ok, k, v): k and v have invalid type when unused (one dummy leaf each)
